@@ -3,4 +3,4 @@ From Rpgp Require Import Base.Octets Rules.Rules.
 Extraction Language OCaml.
 Separate Extraction Byte.to_N Byte.of_N
   Rules.may_decrypt Rules.aligned Rules.usable Rules.container_allowed Rules.sig_admissible Rules.critical_ok
-  Rules.known_subpacket Rules.fp_version_ok Rules.ops_matches Rules.subkey_version_ok Rules.binding_ok Rules.sigkey_aligned.
+  Rules.known_subpacket Rules.fp_version_ok Rules.ops_matches Rules.ops_pair_ok Rules.subkey_version_ok Rules.binding_ok Rules.sigkey_aligned.
